@@ -21,7 +21,7 @@ import (
 )
 
 func init() {
-	registerEngine("W2", []string{"W2", "W3"}, runEngineW2)
+	registerEngine("W2", []string{"W2", "W3", "W4"}, runEngineW2)
 }
 
 func intInfo(t types.Type) (bits int, unsigned bool, ok bool) {
@@ -210,6 +210,7 @@ func runEngineW2(p *Prog, o *obls) {
 		o.ok("W2", funcKey(fn)+":width", p.Pos(fn.Pos()), fmt.Sprintf("%d site(s): shifts are done after widening (or cannot lose bits), slice sizes that are unsigned differences are ordered by a dominating comparison", looked[fn]))
 	}
 	w3Tautologies(p, o)
+	w4IfaceConst(p, o)
 	o.ok("W2", "inspected", "-", fmt.Sprintf("%d widening conversion(s) of a constant shift, %d slice size(s) that are an unsigned difference", nConv, nMake))
 }
 
@@ -298,4 +299,68 @@ func w3Tautologies(p *Prog, o *obls) {
 		o.ok("W3", funcKey(fn)+":unsigned-guard", p.Pos(fn.Pos()), fmt.Sprintf("%d sign test(s) against zero, each on a signed operand", signedOK[fn]))
 	}
 	o.ok("W3", "inspected", "-", fmt.Sprintf("%d tautological comparison(s) of an unsigned value with zero", n))
+}
+
+// W4 — an interface value is compared with a constant of the type it holds. Comparing an `any` with a constant boxes
+// the constant in its *default* type: `v != 0` compares with int(0). The function that has just asserted `v.(uint8)`
+// knows v holds a uint8, and a uint8 is never equal to an int whatever their values: the test is always true (or, for
+// ==, always false), and the zero value it was meant to single out — "extension ID 0 means not negotiated" — takes
+// the other branch. In every function: an interface value that is type-asserted to a basic type T is not compared
+// (==, !=) with a constant whose boxed type differs from T.
+func w4IfaceConst(p *Prog, o *obls) {
+	n := 0
+	for _, fn := range p.Funcs {
+		if fn.Blocks == nil || !p.InUniverse(fn) {
+			continue
+		}
+		asserted := map[ssa.Value]types.Type{}
+		instrsOf(fn, func(in ssa.Instruction) {
+			if ta, ok := in.(*ssa.TypeAssert); ok {
+				if _, isBasic := ta.AssertedType.Underlying().(*types.Basic); isBasic {
+					asserted[p.origin(ta.X)] = ta.AssertedType
+				}
+			}
+		})
+		if len(asserted) == 0 {
+			continue
+		}
+		var bad []string
+		cmp := 0
+		instrsOf(fn, func(in ssa.Instruction) {
+			bo, ok := in.(*ssa.BinOp)
+			if !ok || bo.Op != token.EQL && bo.Op != token.NEQ {
+				return
+			}
+			for _, pair := range [][2]ssa.Value{{bo.X, bo.Y}, {bo.Y, bo.X}} {
+				t, ok := asserted[p.origin(pair[0])]
+				if !ok {
+					continue
+				}
+				mi, ok := pair[1].(*ssa.MakeInterface)
+				if !ok {
+					continue
+				}
+				c, ok := mi.X.(*ssa.Const)
+				if !ok || c.Value == nil {
+					continue
+				}
+				cmp++
+				if !types.Identical(c.Type(), t) {
+					bad = append(bad, fmt.Sprintf("the value asserted to %s is compared at %s with the constant %s, which is boxed as %s", t.String(), p.instrPos(bo), c.Value.String(), c.Type().String()))
+				}
+			}
+		})
+		if cmp == 0 {
+			continue
+		}
+		n++
+		key := funcKey(fn) + ":iface-const"
+		if len(bad) > 0 {
+			sort.Strings(bad)
+			o.bad("W4", key, strings.Fields(strings.SplitN(bad[0], " at ", 2)[1])[0], strings.Join(dedupe(bad), "; ")+": values of different dynamic types are never equal — the comparison has one outcome whatever the value, and the case it was meant to single out takes the other branch")
+		} else {
+			o.ok("W4", key, p.Pos(fn.Pos()), fmt.Sprintf("%d comparison(s) of an asserted interface value with a constant of the asserted type", cmp))
+		}
+	}
+	o.ok("W4", "inspected", "-", fmt.Sprintf("%d function(s) comparing a type-asserted interface value with a constant", n))
 }
